@@ -40,7 +40,7 @@ DECOS = {'setattr_on_read', 'auto_attr'}
 FILES = ['nitime/analysis/base.py', 'nitime/analysis/coherence.py', 'nitime/analysis/spectral.py',
          'nitime/analysis/correlation.py', 'nitime/analysis/granger.py', 'nitime/analysis/snr.py',
          'nitime/analysis/normalization.py', 'nitime/analysis/event_related.py', 'nitime/timeseries.py']
-ONLY = {'nitime/timeseries.py': {'Epochs'}}
+ONLY = {'nitime/timeseries.py': {'Epochs', 'TimeSeries', 'TimeSeriesBase'}}
 VIEW_ATTRS = {'data', 'T', 'real', 'imag', 'flat'}
 
 
